@@ -446,10 +446,17 @@ func RunScenario(sc Scenario) (tr *Trace) {
 	// a nonce of our own for inbound self-connection scripts
 	var donorNonce uint64
 	needDonor := false
+	hasSelf := false
 	for _, m := range sc.Script {
-		if m.K == "ver" && m.Self && sc.Dir == "in" {
-			needDonor = true
+		if m.K == "ver" && m.Self {
+			hasSelf = true
+			if sc.Dir == "in" {
+				needDonor = true
+			}
 		}
+	}
+	if sc.Sib && hasSelf {
+		needDonor = false
 	}
 	if needDonor {
 		n, err := selfNonce()
@@ -514,6 +521,35 @@ func RunScenario(sc Scenario) (tr *Trace) {
 		}(m)
 	}
 
+	// A node dialling itself: the sibling outbound peer of the same process is
+	// started now and its version write is kept in flight (the nonce is on
+	// the wire, the Write call has not returned) until the scenario is over.
+	var sib *btcpeer.Peer
+	var sibRec *recorder
+	if sc.Sib && hasSelf {
+		ssc := &Scenario{Dir: "out", LPV: int(wire.ProtocolVersion), Net: "sim"}
+		sib, err = newPeer(ssc, btcpeer.MessageListeners{})
+		if err != nil {
+			return fail("sibling peer: %v", err)
+		}
+		sibRec = newRecorder(wire.SimNet)
+		sibRec.silent = true
+		sibRec.stick = true
+		sibRec.onNonce = func() { rec.log(Event{E: "sibwire"}) }
+		sib.AssociateConnection(newConn(sibRec, ssc))
+	}
+	releaseSib := func() {
+		if sib == nil {
+			return
+		}
+		sibRec.mu.Lock()
+		sibRec.released = true
+		sibRec.cond.Broadcast()
+		sibRec.mu.Unlock()
+		sib.Disconnect()
+		sib.WaitForDisconnect()
+	}
+
 	p.AssociateConnection(newConn(rec, &sc))
 
 	var actors sync.WaitGroup
@@ -561,7 +597,17 @@ func RunScenario(sc Scenario) (tr *Trace) {
 			d.jitter()
 			nonce := uint64(0x1000000 + sc.ID*16 + idx)
 			if m.K == "ver" && m.Self {
-				if sc.Dir == "in" {
+				if sib != nil {
+					// echo the nonce the sibling is writing right now
+					ok := sibRec.waitFor(5*time.Second, func() bool { return sibRec.haveVersion })
+					if !ok {
+						rec.log(Event{E: "harness-error", B: "sibling peer wrote no version message"})
+						return
+					}
+					sibRec.mu.Lock()
+					nonce = sibRec.versionNonce
+					sibRec.mu.Unlock()
+				} else if sc.Dir == "in" {
 					nonce = donorNonce
 				} else {
 					ok := rec.waitFor(time.Second, func() bool { return rec.haveVersion || rec.localClosed })
@@ -699,6 +745,7 @@ func RunScenario(sc Scenario) (tr *Trace) {
 	case <-actorsDone:
 	case <-time.After(30 * time.Second):
 		close(d.stop)
+		releaseSib()
 		return fail("scenario actors stuck")
 	}
 
@@ -731,6 +778,7 @@ func RunScenario(sc Scenario) (tr *Trace) {
 		return fail("WaitForDisconnect did not return 20s after the connection was closed")
 	}
 
+	releaseSib()
 	left, settled := waitPeerGoroutines(baseline, 60*time.Second)
 	if !settled {
 		close(d.stop)
